@@ -12,7 +12,7 @@ use crate::io::port::{PortState, TestPort};
 use crate::props::c16::{reply_expected, wire_of};
 use crate::repr::M;
 
-pub const RULE: &str = "every (message kind, reply kind) pair is enumerated on every run: 19 message kinds (data chunks of 3 lengths, chunk count, hello, query, goodbye, pixels complete, the 6 requests, report, ack, unknown frame) and, for the kinds that get a reply, every reply (13 state reports, 6 acknowledgements, an unknown frame, a data chunk). Each pair is run as 'message, then a query' on an instrumented port that timestamps the start/end of every write()/read() call with a monotonic clock. Lower bounds asserted on every trial: a data chunk's last write -> the next message's first write >= 30 ms; the read that delivered a page-load/show-in-progress report -> return >= 100 ms. For every other message / reply the minimum over repeated trials (5, adaptively up to 200) of write->next-I/O and read->return must be below 30 ms. Non-trivial = each distinct (message kind, reply kind) pair";
+pub const RULE: &str = "every (message kind, reply kind) pair is enumerated on every run: 19 message kinds (data chunks of 3 lengths, chunk count, hello, query, goodbye, pixels complete, the 6 requests, report, ack, unknown frame) and, for the kinds that get a reply, every reply (13 state reports, 6 acknowledgements, an unknown frame, a data chunk). Each pair is run as 'message, then a query' on an instrumented port that timestamps the start/end of every write()/read() call with a monotonic clock. Lower bounds asserted on every trial: a data chunk's last write -> the next message's first write >= 30 ms; the read that delivered a page-load/show-in-progress report -> return >= 100 ms; the paced exchanges are repeated on a slow port whose write()/read() calls block 1..40 ms, because the delays count from the end of the write / read. For every other message / reply the minimum over repeated trials (5, adaptively up to 200) of write->next-I/O and read->return must be below 30 ms. Non-trivial = each distinct (message kind, reply kind) pair";
 pub const ASSUMPTIONS: &[&str] = &[
     "thread::sleep never returns early and Instant is monotonic, so the lower bounds cannot be disturbed by load",
     "an unpaced exchange is only declared delayed when all of up to 200 trials exceed 30 ms, so scheduler noise cannot raise an alarm; a spurious delay shorter than 30 ms is not detected (the statement only speaks of 'either of these amounts')",
@@ -22,6 +22,12 @@ pub const ASSUMPTIONS: &[&str] = &[
 pub struct PaceCase {
     pub msg: M,
     pub reply: Option<M>,
+    /// a slow port: each write() call blocks this many milliseconds (0 = instant)
+    #[serde(default)]
+    pub write_block_ms: u64,
+    /// each read() call blocks this many milliseconds
+    #[serde(default)]
+    pub read_block_ms: u64,
 }
 
 struct Trial {
@@ -44,7 +50,14 @@ fn one_trial(c: &PaceCase) -> Result<Trial, String> {
     // the follow-up query's reply
     tape.extend_from_slice(&wire_of(&M::Report(1, 0)));
     tape.extend_from_slice(b"\r\n");
-    let port = TestPort::with_state(PortState::new(tape));
+    let mut state = PortState::new(tape);
+    if c.write_block_ms > 0 {
+        state.write_block = Some(Duration::from_millis(c.write_block_ms));
+    }
+    if c.read_block_ms > 0 {
+        state.read_block = Some(Duration::from_millis(c.read_block_ms));
+    }
+    let port = TestPort::with_state(state);
     let h = port.handle();
     let mut bus = SerialSignBus::try_new(port).map_err(|e| format!("try_new failed: {e}"))?;
     let r1 = catch(|| bus.process_message(c.msg.to_message()).map(|_| ()).map_err(|e| e.to_string())).map_err(|p| format!("panic: {p}"))?;
@@ -173,11 +186,21 @@ pub fn all_pairs(addr: u16) -> Vec<PaceCase> {
     for m in msgs {
         if reply_expected(&m) {
             for r in &replies {
-                out.push(PaceCase { msg: m.clone(), reply: Some(r.clone()) });
+                out.push(PaceCase { msg: m.clone(), reply: Some(r.clone()), write_block_ms: 0, read_block_ms: 0 });
             }
         } else {
-            out.push(PaceCase { msg: m, reply: None });
+            out.push(PaceCase { msg: m, reply: None, write_block_ms: 0, read_block_ms: 0 });
         }
+    }
+    // the paced exchanges again on a slow line: the 30 ms / 100 ms count from the END of the write / read,
+    // however long the port needed for it
+    for block in [4u64, 12, 25, 40] {
+        out.push(PaceCase { msg: M::Data { off: 0, data: vec![0xAA; 16] }, reply: None, write_block_ms: block, read_block_ms: 0 });
+        out.push(PaceCase { msg: M::Data { off: 16, data: vec![] }, reply: None, write_block_ms: block, read_block_ms: 0 });
+    }
+    for block in [1u64, 3, 8] {
+        out.push(PaceCase { msg: M::Query(addr), reply: Some(M::Report(addr, 8)), write_block_ms: 0, read_block_ms: block });
+        out.push(PaceCase { msg: M::Req(addr, 2), reply: Some(M::Report(addr, 10)), write_block_ms: block, read_block_ms: block });
     }
     out
 }
